@@ -70,6 +70,11 @@ def init (cacheLen maxProc : Nat) (fast : Bool) (offset : Nat) : State :=
   { cfg := ⟨cacheLen, maxProc, fast⟩, offset := offset, head := 0, pools := fun _ => {}, cache := [], lacking := [],
     origin := offset, sched := [], ret := [], failed := false }
 
+/-- a new sync cycle on the same queue object (`spawnSync`: Close; `synchronise`: queue.Reset, peers.Reset;
+`syncWithPeer`: Prepare): every container is emptied, the result cache is reallocated, `resultOffset` restarts at the
+new origin, the peers' lacking sets are cleared; only the sizing (and the float `resultSize`, an input here) survives -/
+def reset (s : State) (offset : Nat) (fast : Bool) : State := init s.cfg.cacheLen s.cfg.maxProc fast offset
+
 /-! ### finite maps as association lists -/
 
 def cget : Cache → Nat → Option Result
